@@ -122,13 +122,25 @@ claim('C02',
       'checks of NLReader (ReadUInt(ub), ReadUInt(lb,ub), ReadNumArgs, ReadOpCode, ReadLinearExpr(n,h)), for a buffer of any length '
       'and content: the cursor stays in [start_, end_], moves forward only, no UB, every integer handed on lies in its type\'s '
       'range and inside the bound passed, common-expression counts cannot overflow, ReadLinearExpr delivers exactly the '
-      'announced number of terms with variable indices inside the header range.',
+      'announced number of terms with variable indices inside the header range. Item readers (ReadBounds, ReadColumnSizes, '
+      'ReadInitialValues, ReadSuffixValues, ReadSuffix per item class, ReadLinearExpr<AlgebraicConHandler>): every index reported is '
+      'inside the declared range of its item class and exactly the announced number of values is delivered. The recursive '
+      'expression reader (ReadNumericExpr x3, ReadLogicalExpr x2, ReadSymbolicExpr, ReadCountExpr, ReadArgs/DoReadArgs, '
+      'BinaryArgReader, ReadReference, ReadConstant, GetOpCodeInfo over the regenerated opcode table) for trees of any depth and '
+      'width by mutual induction over one contract (goto-instrument --enforce-contract-rec): exactly the announced number of '
+      'arguments between Begin and End, Begin/End properly nested, arguments handed over in reading order and never null, '
+      'variable / function / common-expression indices in range, every notification names the operator whose opcode was read, '
+      'every record starts at a line start. The segment dispatcher NLReader::Read with a loop invariant: segment-head indices in '
+      'range, common-expression Begin/End pairing, function type, suffix kind vs item class.',
       'Trusted: CBMC, extractor, *end_ == 0 (ReaderBase ctor / zero-filled mmap tail), isspace/strtod/memcpy/std::reverse stubs. '
       'Callers use constructive stubs of the callee contracts (a contract that assigns the global cursor cannot be replaced in '
-      'CBMC without losing points-to information); each stub is checked against the contract text. Not under contract: the '
-      'segment switch of NLReader::Read, the recursive expression readers, ReadBounds/ReadColumnSizes/ReadInitialValues/'
-      'ReadSuffix (handler-type templates), nesting, file = memory path, READ_BOUNDS_FIRST. DoReportError under an assumed '
-      'call-history precondition. Replay by recorded inputs under ASan/UBSan.',
+      'CBMC without losing points-to information); each stub is checked against the contract text. At the NLReader level the '
+      'leaf reader is used through its proved contracts only (no cursor state) and the Handler is a set of asserting stubs. '
+      'Partial correctness for the recursion and the dispatcher loop (termination = consumption of input is proved for the leaf '
+      'loops only). Not under contract: file = memory path (NLFileReader/mmap), the READ_BOUNDS_FIRST double pass of Read(), '
+      'VarBoundHandler. DoReportError under an assumed call-history precondition. Replay: recorded hostile inputs under '
+      'ASan/UBSan, and for the NLReader-level harnesses a generator of random well-formed models over every opcode read back '
+      'through a checking handler.',
       'DESIGN.md 4 C02')
 
 claim('C04',
